@@ -118,6 +118,19 @@ fn props() -> Vec<PropDef> {
         ],
     },
     PropDef {
+        id: "C09",
+        num: 9,
+        level: "exploration",
+        run: props::c09::run,
+        quick_runs: 30_000,
+        thorough_runs: 1_000_000,
+        rule: "one case = (1-2 generated problems with right-hand sides planted at/above several candidate bounds, settings, and either a sequential history of set_infinity/default_infinity around New/solve/re-solve or 2-4 simulated threads in which setter threads store to the bound while solver threads construct and solve); non-trivial = some row was dropped or capped, or a store landed between invoke and return of a construction; distinct = distinct hash of the (thread, event kind) sequence, i.e. distinct interleavings",
+        assumptions: &[
+            "the bound is modelled as a sequentially consistent register; every access to it is a yield point (guarded hook at the three accessors)",
+            "interleaving granularity = seam calls (clock reads, sink calls, infinity accessors); the crate has no other shared state",
+        ],
+    },
+    PropDef {
         id: "C08",
         num: 8,
         level: "exploration",
